@@ -13,11 +13,15 @@ RULE = ('histories of 4-16 operations on ONE parser object (SAXParser, SAX2XMLRe
         'adoptDocument.  Oracle (computed in the executor, no XML model): the canonical event dump incl. errors and positions of EVERY parse / loadGrammar in the '
         'history equals that of the same call on a freshly constructed parser with the same feature string and the same grammars preloaded; adopted documents '
         'dumped at the end equal their dump at adoption.  non-trivial = history contains a compared parse that follows a failed, abandoned or aborted parse on '
-        'the same object; distinct by sha1(history).')
+        'the same object; distinct by sha1(history).  lane T (transparency): histories over ONE grammar (a DTD referenced by system id, with and without an internal '
+        'subset + ignoreCachedDTD, or a schema referenced by (noNamespace)schemaLocation) mixing loadGrammar(toCache), cacheGrammarFromParse, useCachedGrammarInParse, '
+        'pool resets and failed parses; every `tparse` compares the parse on the history parser (cache in use) with a fresh parser that has nothing cached and reads '
+        'the grammar inline: identical verdicts, positions, content, defaulted attributes and ignorable-whitespace classification (declaration events excluded); '
+        'non-trivial = a grammar was in the cache at the compared parse.')
 # known finding C15-psvi-null-xsmodel (see known_findings.json): with PSVI on, a re-used parser reports other type information than a fresh one (and parsing
 # against a pool whose XSModel already exists calls getXSObject through a stale XSModel); psvi=1 is therefore not generated here (class excluded in FEATS below)
 ASSUMPTIONS = ['persistent state is what the API documents: the feature/property map and the grammars cached through loadGrammar(toCache=true) since the last pool reset',
-               'cacheGrammarFromParse is not generated in this round (its cached-wins rules are intricate); locked shared pools are covered by C17',
+               'cacheGrammarFromParse is generated in lane T only, under its documented restrictions (no internal subset, no loadGrammar of an already cached grammar); a cached grammar the document does not reference is documented to be used for its namespace and is not generated; locked shared pools are covered by C17',
                'continue-after-fatal-error stays off']
 BUDGET = {'quick': 260, 'thorough': 4000}
 WALLCAP = {'quick': 500, 'thorough': 3600}
